@@ -35,6 +35,7 @@ CONSTANTS
   QStarts = {{0}}
   QStops = {{1}}
   TimeCols = {{"none"}}
+  EWSAsFound = FALSE
 INVARIANTS TypeOK CursorPrefix CursorContract FullArrays
 CHECK_DEADLOCK FALSE
 '''
